@@ -149,6 +149,14 @@ def build_tree(root, case):
             continue
         body = b"\x00\x01\x02binary\xff\xfe" if f["kind"] == "binary" else "content of a file\n"
         how = f["how"]
+        if how == "snippet":
+            # the tags sit in an SPDX snippet beyond the 4 KiB window; the marker starts f["snip"] bytes before a multiple of
+            # 4096 (so it may straddle a block boundary of any chunked reader)
+            assert f["kind"] == "text"
+            k, j = f.get("snip", [1, 0])
+            lead = 4096 * k - j
+            filler = ("filler line\n" * (lead // 12 + 1))[: lead - 1] + "\n"
+            body = filler + "SPDX-SnippetBegin\n" + header_text(f) + "SPDX-SnippetEnd\n" + body
         if how in ("header", "header+global"):
             assert f["kind"] == "text"
             body = header_text(f) + "\n" + body
@@ -577,8 +585,13 @@ def compliant_case(rng, nfiles=None):
         if glob == "dep5" and " " not in p:
             hows += ["global"]
         how = rng.choice(hows)
+        if kind == "text" and how == "header" and rng.random() < 0.12:
+            how = "snippet"
         ne = 1 if (how == "global" and glob == "dep5") else rng.randint(1, 3)
         f = mkfile(p, [rand_expr(rng, pool) for _ in range(ne)], cop=rng.randint(1, 2), how=how, kind=kind, style=style_for(p))
+        if how == "snippet":
+            f["snip"] = [rng.randint(1, 3), rng.choice([0, 0, rng.randint(1, 16), rng.randint(1, 16), rng.randint(17, 200)])]
+            f["style"] = "py"
         if how == "header+global":
             f["gcop"] = rng.randint(0, 1)
             f["gexprs"] = [rand_expr(rng, pool) for _ in range(rng.randint(0, 2))]
